@@ -230,9 +230,10 @@ def rules(ck, P='C03'):
         if ctx[0] == 'agg':
             c = ctx[1]
             tl = be_atom(buf, Lin.c(3), 2)
-            fid = be_atom(buf, Lin.c(2), 1)
+            # the fragment id is byte 2 of the packet: read as a one-byte big-endian word or by plain indexing
+            fids = [x for x in (be_atom(buf, Lin.c(2), 1), byte_cell(W, buf, 2)) if x is not None]
             ok = (c[ix['total_len']][0] == 'int' and tl is not None and c[ix['total_len']][1] == tl
-                  and c[ix['frag_id']][0] == 'int' and fid is not None and c[ix['frag_id']][1] == fid
+                  and c[ix['frag_id']][0] == 'int' and c[ix['frag_id']][1] in fids
                   and c[ix['pdu_len']][0] == 'int' and not has_trunc(c[ix['pdu_len']][1]))
         if ok:
             ck.discharged += 1
@@ -294,6 +295,18 @@ def be_atom(buf, start, n):
     if n == 1:
         # single byte read through indexing
         return None
+    return None
+
+
+def byte_cell(W, buf, k):
+    """the value read from buf[k] by plain indexing in world W (None when that cell was never read or the buffer was written)"""
+    root = buf[1].root
+    v = W.mem.get(root)
+    if v is None or v[0] != 'seq' or root in W.written or buf[1].path:
+        return None
+    for cidx, cval in v[3]:
+        if cidx == Lin.c(k) and cval[0] == 'int':
+            return cval[1]
     return None
 
 
